@@ -50,7 +50,10 @@ def build(cfg):
     # every second source is obtained the other documented way: from its signature (a component declaring
     # Out(event.Source.Signature(trigger=...)) gets its ports through Signature.create()); both routes must give the same source
     T = lambda k, m: event.Source.Trigger(m) if k % 3 == 1 else m            # the mode as a string or as the enum member
-    srcs = [event.Source(trigger=T(k, m), path=(f"s{k}",)) if (k + cfg.get("via_signature", 0)) % 2 == 0
+    def plain(k, m):
+        # a level-triggered source may leave the trigger out: "level" is the documented default
+        return event.Source(path=(f"s{k}",)) if (m == "level" and k % 4 == 0) else event.Source(trigger=T(k, m), path=(f"s{k}",))
+    srcs = [plain(k, m) if (k + cfg.get("via_signature", 0)) % 2 == 0
             else event.Source.Signature(trigger=T(k, m)).create(path=(f"s{k}",)) for k, m in enumerate(cfg["modes"])]
     emap = event.EventMap()
     for k in cfg["order"]:
